@@ -102,6 +102,8 @@ class SecondSide(Relation):
         terms = []
         for n, t in obs['files']:
             sec = G.second_side_lists(inp['ns'], t)
+            if sec is None:
+                return 'false'
             terms.append('m_second_side %s %s %s' % (a, C.cstr(t), C.clist([C.czlist(l) for l in sec])))
             terms.append('m_genfile %s %s' % (a, C.cstr(t)))
         return '(' + ' && '.join(terms) + ')'
